@@ -335,6 +335,7 @@ func textOK(v textEnum, p textEnumP, name string, bitmask bool, names []string, 
 		if err != nil || string(b) != name {
 			return "F(marshal=" + string(b) + ")"
 		}
+		reflect.ValueOf(p).Elem().SetUint(0xA5A5A5A5A5A5A5A5)
 		if err := p.UnmarshalText([]byte(name)); err != nil {
 			return "F(unmarshal-error)"
 		}
@@ -375,6 +376,8 @@ func textOK(v textEnum, p textEnumP, name string, bitmask bool, names []string, 
 				return fmt.Sprintf("F(marshal %%d=%%s)", c, b)
 			}
 		}
+		// the destination holds whatever the application had there before: the parsed value replaces it
+		reflect.ValueOf(p).Elem().SetUint(0xA5A5A5A5A5A5A5A5)
 		if err := p.UnmarshalText(b); err != nil {
 			return fmt.Sprintf("F(unmarshal-error %%s)", b)
 		}
